@@ -12,7 +12,7 @@ Arguments N.lor : simpl never.
 Arguments N.land : simpl never.
 
 (* a call that changes the tree *)
-Definition eff (c : call) : bool :=
+Definition tree_eff (c : call) : bool :=
   match c with
   | Mkdirat _ _ _ | Mknodat _ _ _ _ | Unlinkat _ _ _ | Linkat _ _ _ _ _ | Symlinkat _ _ _
   | Renameat _ _ _ _ | Renameat2 _ _ _ _ _ => true
@@ -20,6 +20,23 @@ Definition eff (c : call) : bool :=
   | Openat2 _ _ fl _ _ => has fl O_CREAT
   | _ => false
   end.
+
+(* the calls counted below: those that change the tree, and -- so that the same judgement
+   separates lookups from everything the dynamic kernel model (theories/Dyn.v) answers
+   differently from the static one -- the two calls by which remove_all scans a directory
+   (getdents64, fcntl(F_GETFL)).  A lookup issues none of them. *)
+Definition eff (c : call) : bool :=
+  match c with
+  | Mkdirat _ _ _ | Mknodat _ _ _ _ | Unlinkat _ _ _ | Linkat _ _ _ _ _ | Symlinkat _ _ _
+  | Renameat _ _ _ _ | Renameat2 _ _ _ _ _ => true
+  | Openat _ _ fl _ => has fl O_CREAT
+  | Openat2 _ _ fl _ _ => has fl O_CREAT
+  | Getdents _ | FcntlGetfl _ => true
+  | _ => false
+  end.
+
+Lemma tree_eff_eff c : tree_eff c = true -> eff c = true.
+Proof. destruct c; cbn; intro H; try exact H; discriminate. Qed.
 
 Definition ne {A} (p : prog A) : Prop := calls_le eff 0 p.
 
